@@ -150,9 +150,12 @@ def run_case(case, rec, ctx):
     variation = (I0.max() - I0.min()) / scale if scale else 0
     aligns = ["axisangle"] + (["dpd1", "dpd2", "dpd3"] if n == 3 else [])
     # four-body axis-angle kinematics (Wigner rotations through three boosts) take minutes to unfold: thorough tier only
-    if (n >= 4 and ctx["tier"] == "quick") or C.axis_angle_terms(reaction) * len(reaction.transitions) ** 0.5 > (400 if ctx["tier"] == "quick" else 4000):
+    if (n >= 4 and ctx["tier"] == "quick") or C.axis_angle_cost(reaction) > (3000 if ctx["tier"] == "quick" else 40000):
         aligns.remove("axisangle")
         rec.note("axisangle_skipped_cost")
+    if n == 3 and C.dpd_cost(reaction) > (15000 if ctx["tier"] == "quick" else 300000):
+        aligns = [a for a in aligns if not a.startswith("dpd")]
+        rec.note("dpd_skipped_cost")
     rec.sample(f"{case['reaction']['kind']}", {"reaction": R.reaction_summary(reaction), "alignments": aligns, "variation_over_events": variation, "I0": I0[:2]})
     for align in aligns:
         cfg = C.default_config()
